@@ -31,6 +31,9 @@ using namespace dv;
 using Dune::LoopSIMD;
 namespace Simd = Dune::Simd;
 
+// cxx_c09_chk.cc: the same headers compiled with DUNE_FMatrix_WITH_CHECKING (`matc` op lines)
+void c09_checked_exec(const std::vector<std::string>& w, std::string& impl, std::string& oracle);
+
 // ------------------------------------------------------------------------------------------------
 // scalar codecs
 // ------------------------------------------------------------------------------------------------
@@ -1446,10 +1449,12 @@ Result execMixed(const std::vector<std::string>& w) {
     case GT: r = vs ? (a > s) : (s > a); break;
     case LE: r = vs ? (a <= s) : (s <= a); break;
     case GE: r = vs ? (a >= s) : (s >= a); break;
-    // the scalar-vector forms of == and != are called by name: as an expression, C++20 would also consider the reversed
-    // vector-scalar candidate (and reject the program if that one were the better match)
-    case EQ: r = vs ? (a == s) : operator==(s, a); break;
-    case NE: r = vs ? (a != s) : operator!=(s, a); break;
+    // == and != are called by name: as an expression, C++20 would also consider the overload for the reversed operand
+    // order as a rewritten candidate, and reject the whole program (mask return type) whenever that one is the better match,
+    // i.e. whenever one of the two overloads is not generic in the scalar's type; by name the harness still compiles then
+    // and reports the lanes that differ
+    case EQ: r = vs ? operator==(a, s) : operator==(s, a); break;
+    case NE: r = vs ? operator!=(a, s) : operator!=(s, a); break;
     case LAND: if constexpr (!IsNested<V>::value) { r = vs ? (a && s) : (s && a); } else { r = (a && s); } break;
     case LOR: if constexpr (!IsNested<V>::value) { r = vs ? (a || s) : (s || a); } else { r = (a || s); } break;
     default: return noSuchOp();
@@ -1502,6 +1507,116 @@ static Result execMixedT(const std::vector<std::string>& w) {
 }
 
 // ------------------------------------------------------------------------------------------------
+// The functions of the abstraction layer that are generic in the type of an operand, called with an operand of ANOTHER
+// type than the vector's own mask / scalar / type:
+//   layx condm <T> <flat|nest|al64> <[mask]> <[a]> <[b]>   Simd::cond with a mask of a type that is not Mask<V>:
+//        flat: V = LoopSIMD<LoopSIMD<T,2>,2>, mask = LoopSIMD<bool,4>;  nest: V = LoopSIMD<T,4>, mask = LoopSIMD<LoopSIMD<bool,2>,2>;
+//        al64: V = LoopSIMD<T,4>, mask = LoopSIMD<bool,4,64>  (interface.hh converts with implCast<Mask<V>>: lane l stays lane l)
+//   layx maskor|maskand <T1> <T2> <[a]> <[b]>               V1 = LoopSIMD<T1,4>, V2 = LoopSIMD<T2,4>
+//   layx bcast <T> <U> <s>                                  Simd::broadcast<LoopSIMD<T,4>>(U s): every lane is T(s)
+// ------------------------------------------------------------------------------------------------
+template <class V, class MV>
+Result execCondM(const std::vector<std::string>& w) {
+  using T = ScalarOf<V>;
+  constexpr std::size_t n = RawT<V>::n;
+  static_assert(RawT<MV>::n == n);
+  const MV m = parseVec<MV>(w.at(4));
+  const V a = parseVec<V>(w.at(5)), b = parseVec<V>(w.at(6));
+  const V r = Simd::cond(m, a, b);
+  Result res;
+  res.impl = showVec(r);
+  for (std::size_t k = 0; k < n; ++k) {
+    const T e = RawT<MV>::at(m, k) ? RawT<V>::at(a, k) : RawT<V>::at(b, k);
+    if (!Cod<T>::same(RawT<V>::at(r, k), e)) { laneMismatch(res, k, RawT<V>::at(r, k), e, "mask ? a : b with the mask's lane of the same number"); break; }
+  }
+  return res;
+}
+template <class T> Result execCondMT(const std::vector<std::string>& w) {
+  const std::string& how = w.at(3);
+  if (how == "flat") return execCondM<LoopSIMD<LoopSIMD<T, 2>, 2>, LoopSIMD<bool, 4>>(w);
+  if (how == "nest") return execCondM<LoopSIMD<T, 4>, LoopSIMD<LoopSIMD<bool, 2>, 2>>(w);
+  if (how == "al64") return execCondM<LoopSIMD<T, 4>, LoopSIMD<bool, 4, 64>>(w);
+  Result r; r.impl = "bad-op"; r.oracle = "ok trivial"; return r;
+}
+template <class T1, class T2>
+Result execMaskX(const std::vector<std::string>& w) {
+  using V1 = LoopSIMD<T1, 4>;
+  using V2 = LoopSIMD<T2, 4>;
+  const bool isOr = w.at(1) == "maskor";
+  const V1 a = parseVec<V1>(w.at(4));
+  const V2 b = parseVec<V2>(w.at(5));
+  const LoopSIMD<bool, 4> r = isOr ? Simd::maskOr(a, b) : Simd::maskAnd(a, b);
+  Result res;
+  res.impl = showVec(r);
+  for (std::size_t k = 0; k < 4; ++k) {
+    const bool x = RawT<V1>::at(a, k) != T1(0), y = RawT<V2>::at(b, k) != T2(0);
+    const bool e = isOr ? (x || y) : (x && y);
+    if (RawT<LoopSIMD<bool, 4>>::at(r, k) != e) { laneMismatch(res, k, (bool)RawT<LoopSIMD<bool, 4>>::at(r, k), e, "(a != 0) OP (b != 0)"); break; }
+  }
+  return res;
+}
+template <class T1> Result execMaskXT(const std::vector<std::string>& w) {
+  const std::string& t2 = w.at(3);
+  if (t2 == "f64") return execMaskX<T1, double>(w);
+  if (t2 == "i32") return execMaskX<T1, int>(w);
+  if (t2 == "b") return execMaskX<T1, bool>(w);
+  Result r; r.impl = "bad-op"; r.oracle = "ok trivial"; return r;
+}
+template <class T, class U>
+Result execBcastX(const std::vector<std::string>& w) {
+  using V = LoopSIMD<T, 4>;
+  const U s = Cod<U>::parse(w.at(4));
+  if constexpr (std::is_floating_point_v<U> && std::is_integral_v<T> && !std::is_same_v<T, bool>) {
+    // a floating-point value outside the range of T has no defined conversion
+    if (!(s == s) || std::trunc((long double)s) < (long double)std::numeric_limits<T>::min() || std::trunc((long double)s) > (long double)std::numeric_limits<T>::max())
+      return invalidInput();
+  }
+  const V r = Simd::broadcast<V>(s);
+  Result res;
+  res.impl = showVec(r);
+  const T e = static_cast<T>(s);
+  for (std::size_t k = 0; k < 4; ++k)
+    if (!Cod<T>::same(RawT<V>::at(r, k), e)) { laneMismatch(res, k, RawT<V>::at(r, k), e, "the scalar converted to the lanes' type"); break; }
+  return res;
+}
+template <class T> Result execBcastXT(const std::vector<std::string>& w) {
+  const std::string& u = w.at(3);
+  if (u == "f64") return execBcastX<T, double>(w);
+  if (u == "f32") return execBcastX<T, float>(w);
+  if (u == "i32") return execBcastX<T, int>(w);
+  if (u == "i64") return execBcastX<T, long>(w);
+  if (u == "u32") return execBcastX<T, unsigned>(w);
+  if (u == "b") return execBcastX<T, bool>(w);
+  Result r; r.impl = "bad-op"; r.oracle = "ok trivial"; return r;
+}
+static Result execLayX(const std::vector<std::string>& w) {
+  Result bad; bad.impl = "bad-op"; bad.oracle = "ok trivial";
+  if (w.size() < 5) return bad;
+  const std::string &what = w[1], &t = w[2];
+  if (what == "condm" && w.size() == 7) {
+    if (t == "f64") return execCondMT<double>(w);
+    if (t == "i32") return execCondMT<int>(w);
+    return bad;
+  }
+  if ((what == "maskor" || what == "maskand") && w.size() == 6) {
+    if (t == "f64") return execMaskXT<double>(w);
+    if (t == "i32") return execMaskXT<int>(w);
+    if (t == "b") return execMaskXT<bool>(w);
+    return bad;
+  }
+  if (what == "bcast" && w.size() == 5) {
+    if (t == "f64") return execBcastXT<double>(w);
+    if (t == "f32") return execBcastXT<float>(w);
+    if (t == "i32") return execBcastXT<int>(w);
+    if (t == "i16") return execBcastXT<short>(w);
+    if (t == "u32") return execBcastXT<unsigned>(w);
+    if (t == "b") return execBcastXT<bool>(w);
+    return bad;
+  }
+  return bad;
+}
+
+// ------------------------------------------------------------------------------------------------
 // dispatch
 // ------------------------------------------------------------------------------------------------
 using ExecFn = Result (*)(const std::vector<std::string>&);
@@ -1544,6 +1659,14 @@ static Result exec(const std::string& line) {
     stat("mat_S" + shape);
     Result r = execMatShape(shape, m);
     if (r.impl == "ERR:FMatrix") stat("mat_singular_reported");
+    return r;
+  }
+  if (kind == "matc") {
+    // matc <solve|inv> <shape> <n> <piv> <limit> <A> [<b>]: the configuration DUNE_FMatrix_WITH_CHECKING (second translation unit)
+    if (w.size() > 3) { stat("matc_" + w[1]); stat("matc_S" + w[2]); stat("matc_n" + w[3]); }
+    Result r;
+    c09_checked_exec(w, r.impl, r.oracle);
+    if (r.impl == "ERR:FMatrix") stat("matc_singular_reported");
     return r;
   }
   if (kind == "dmat") {
@@ -1611,6 +1734,12 @@ static Result exec(const std::string& line) {
     Result r = execMixedT(w);
     if (r.impl == "invalid") stat("skipped_invalid_int_operands");
     if (r.impl == "ERR:NoSuchOp") stat("skipped_no_such_op");
+    return r;
+  }
+  if (kind == "layx") {
+    if (w.size() > 1) stat("layx_" + w[1]);
+    Result r = execLayX(w);
+    if (r.impl == "invalid") stat("skipped_invalid_int_operands");
     return r;
   }
   if (kind == "realign") return execRealign(w);
@@ -1867,6 +1996,46 @@ static std::string genMat(Rng& rng, const Args& a) {
   return line;
 }
 
+// the checked configuration: closed forms n <= 3 (and one LU size), per-lane recipes with many singular lanes, a threshold
+static std::string genMatC(Rng& rng) {
+  const std::string what = rng.coin(3, 5) ? "solve" : "inv";
+  static const std::vector<std::string> shapes = {"2", "4", "4", "2x2", "f4", "d4"};
+  const std::string shape = rng.pick(shapes);
+  const int S = shape == "2" ? 2 : 4;
+  std::vector<int> sizes = shape == "2x2" ? std::vector<int>{2, 3} : (shape == "4" || shape == "d4") ? std::vector<int>{1, 2, 3, 3, 4} : std::vector<int>{1, 2, 3, 3};
+  const int n = rng.pick(sizes);
+  const bool piv = !rng.coin(1, 5);
+  // absolute_limit(): the default 1e-80 (only exact zeros and denormal-sized determinants are "singular"), or a threshold in
+  // the range of the integer determinants (lanes on either side of it)
+  static const std::vector<double> limits = {1e-80, 1e-80, 1e-80, 0.5, 1.0, 2.5, 1e-6, 8.0};
+  const double limit = rng.pick(limits);
+  std::vector<std::vector<double>> lanes(S);
+  for (int l = 0; l < S; ++l) { std::string rec; genLaneMatrix(rng, n, lanes[l], rec); stat("recipe_" + rec); }
+  switch (rng.below(4)) {
+    case 0: {  // all lanes the same matrix except one: exactly one lane on the other side of the test
+      for (int l = 1; l < S; ++l) lanes[l] = lanes[0];
+      std::string rec; genLaneMatrix(rng, n, lanes[rng.below(S)], rec);
+      break;
+    }
+    case 1: {  // one lane exactly singular
+      auto& L = lanes[rng.below(S)];
+      if (n == 1) L[0] = 0; else { int a = (int)rng.below(n), b = (a + 1 + (int)rng.below(n - 1)) % n; for (int j = 0; j < n; ++j) L[b * n + j] = L[a * n + j] * 2; }
+      break;
+    }
+    default: break;
+  }
+  const bool f32 = shape == "f4";
+  if (f32) for (auto& L : lanes) for (auto& x : L) x = (double)(float)x;
+  std::vector<std::string> ta;
+  for (int i = 0; i < n; ++i) for (int j = 0; j < n; ++j) for (int l = 0; l < S; ++l) {
+    const double x = lanes[l][i * n + j];
+    ta.push_back(f32 ? ((x == std::floor(x) && std::fabs(x) < 1e6 && !(x == 0 && std::signbit(x))) ? std::to_string((long long)x) : tokF((float)x)) : tokNum(x));
+  }
+  std::string line = "matc " + what + " " + shape + " " + std::to_string(n) + " " + (piv ? "1" : "0") + " " + tokNum(limit) + " " + listStr(ta);
+  if (what == "solve") line += " " + genSmallLanes(rng, (std::size_t)n * S);
+  return line;
+}
+
 // one lane value for the product / norm cases: mostly small integers, sometimes +-0, inf, NaN, huge, tiny
 static std::string genEntry(Rng& rng, bool f32) {
   if (!rng.coin(1, 12)) return std::to_string(rng.range(-9, 9));
@@ -1984,32 +2153,60 @@ static std::string genMixed(Rng& rng) {
   const bool shift = op == "shl" || op == "shr";
   const std::string A = genVec(rng, T, n, shift ? 1 : (rng.coin() ? 1 : 0));
   std::string s;
+  const bool logic = op == "land" || op == "lor";
   if (shift) s = mkTok(U, (long double)(rng.coin(1, 8) ? rng.range(-1, 65) : rng.range(0, 31)));
-  else if (rng.coin(1, 4)) s = genScalar(rng, U, 0);
+  else if (rng.coin(1, 5)) s = genScalar(rng, U, 0);
   else {
-    // a scalar related to one of the lanes: equal, off by a half / one / a rounding error of the narrower type, or
-    // congruent modulo 2^16 / 2^32 (what a narrowing conversion of the scalar would map onto the lane)
+    // a scalar related to one of the lanes.  Mostly values the lanes' type cannot hold (so that converting the scalar
+    // first would change the outcome): a fraction off, a rounding error of the narrower floating-point type off,
+    // congruent modulo 2^8 / 2^16 / 2^32, negative against unsigned lanes; otherwise equal or off by one.
     const auto lanes = listToks(A);
-    const long double x = tokValue(T, lanes[rng.below(lanes.size())]);
-    long double y = x;
-    switch (rng.below(10)) {
-      case 0: case 1: break;
-      case 2: y = x + 0.5L; break;
-      case 3: y = x - 0.5L; break;
-      case 4: y = x + 1; break;
-      case 5: y = x - 1; break;
-      case 6: y = x * (1 + 0x1p-40L); break;
-      case 7: y = x + 65536.0L * (long double)rng.range(1, 3); break;
-      case 8: y = x + 4294967296.0L * (rng.coin() ? 1 : -1); break;
-      default: y = x + 0.25L; break;
+    const long double x = logic ? 0.0L : tokValue(T, lanes[rng.below(lanes.size())]);
+    std::vector<long double> lossy;
+    if (!intU && intT) lossy = {x + 0.5L, x - 0.5L, x + 0.25L, x - 0.75L, x + 0x1p-20L};
+    if (U == "f64" && T == "f32") lossy = {x * (1 + 0x1p-40L), x * (1 - 0x1p-40L), x + 0x1p-60L, x * (1 + 0x1p-25L)};
+    if (intU && intT && U != T) {
+      lossy = {x + 65536.0L * (long double)rng.range(1, 3), x - 65536.0L, x + 4294967296.0L, x - 4294967296.0L, x + 256.0L};
+      if (T == "u32") lossy.push_back(-1.0L);
+      if (T == "u32") lossy.push_back(x - 4294967296.0L);
+      if (T == "i32" || T == "i16") lossy.push_back(x + 2147483648.0L);
+      if (T == "b") { lossy.push_back(2.0L); lossy.push_back(-1.0L); }
     }
+    if (intU && !intT) lossy = {x + 16777217.0L, x + 9007199254740993.0L, std::trunc(x) + 1};   // not representable in float / double
+    long double y = x;
+    if (!lossy.empty() && rng.coin(3, 5)) y = lossy[rng.below(lossy.size())];
+    else switch (rng.below(4)) { case 0: case 1: break; case 2: y = x + 1; break; default: y = x - 1; break; }
     s = mkTok(U, y);
   }
   return "binx " + T + " " + shape + " " + form + " " + op + " " + A + " " + U + " " + s;
 }
 
+static std::string genLayX(Rng& rng) {
+  switch (rng.below(4)) {
+    case 0: case 1: {
+      const std::string T = rng.coin() ? "f64" : "i32";
+      static const std::vector<std::string> hows = {"flat", "flat", "nest", "al64"};
+      return "layx condm " + T + " " + rng.pick(hows) + " " + genVec(rng, "b", 4, 0) + " " + genVec(rng, T, 4, 0) + " " + genVec(rng, T, 4, 0);
+    }
+    case 2: {
+      static const std::vector<std::string> Ts = {"f64", "i32", "b"};
+      const std::string T1 = rng.pick(Ts), T2 = rng.pick(Ts);
+      return std::string("layx ") + (rng.coin() ? "maskor" : "maskand") + " " + T1 + " " + T2 + " " + genVec(rng, T1, 4, 1) + " " + genVec(rng, T2, 4, 1);
+    }
+    default: {
+      static const std::vector<std::string> Ts = {"f64", "f32", "i32", "i16", "u32", "b"};
+      static const std::vector<std::string> Us = {"f64", "f32", "i32", "i64", "u32", "b"};
+      const std::string T = rng.pick(Ts), U = rng.pick(Us);
+      std::string s = genScalar(rng, U, rng.coin() ? 1 : 0);
+      if ((U == "f64" || U == "f32") && rng.coin()) s = mkTok(U, (long double)rng.range(-40, 40) * 0.25L);
+      return "layx bcast " + T + " " + U + " " + s;
+    }
+  }
+}
+
 static std::string propose(Rng& rng, const Args& a) {
   int sel = (int)rng.below(100);
+  if (sel < 4) return genMatC(rng);
   if (sel < 24) return genMat(rng, a);
   if (sel < 30) return genRect(rng);
   if (sel < 33) return genFVec(rng);
@@ -2025,7 +2222,8 @@ static std::string propose(Rng& rng, const Args& a) {
       }
     }
   }
-  if (sel < 42) return genMixed(rng);
+  if (sel < 41) return genMixed(rng);
+  if (sel < 42) return genLayX(rng);
   static const std::vector<std::string> Ts = {"f64", "f64", "f64", "f32", "f32", "i32", "i32", "i32", "i64", "i64", "b", "b", "u32", "i16"};
   static const std::vector<std::string> flat = {"1", "2", "4", "8"};
   static const std::vector<std::string> nested = {"2x2", "4x2", "2x4"};
